@@ -209,6 +209,12 @@ def run(ctx):
     # "every later frame is still delivered intact" with an atom cache: what one message adds to the cache must be there for the next
     from .c14 import cache_threading
     cache_threading(ctx, 'C06.7-cache-kept-across-frames')
+    # fragments: the assembler rules that "exactly once, intact" of a fragmented message rests on (C09 re-run)
+    ctx.rule('C06.9-fragment-assembly', 'fragmented messages are reassembled by the connection\'s FragmentAssembler: its rules (duplicates never count, completion consumes, own key, no bulk discard, header data kept, '
+             'constructor timeout ...) re-run here', floor=20)
+    from . import c09
+    from ..order import SubCtx as _Sub
+    c09.run(_Sub(ctx, 'C06.9-fragment-assembly', 'assembler'))
     # "control message ... equal to what the peer sent": the tuple -> ControlMessage table used on the receive path
     ctx.rule('C06.8-control-parse-table', 'the receive path turns the control tuple into a ControlMessage with ControlMessage::from_term / ControlMessageType::try_from: '
              'per tag the arity and the field positions are the protocol\'s (rules C08.1-tryfrom and C08.2-* re-run here)', floor=90)
